@@ -6,5 +6,5 @@ export GOFLAGS=-mod=mod GOPROXY=off
 unset GOTOOLCHAIN GOSUMDB 2>/dev/null || true
 mkdir -p "$ROOT/bin" "$ROOT/evidence"
 cd "$ROOT/harness"
-go build -race -tags default_build,verif -o "$ROOT/bin/verifrun" ./cmd/verifrun
+go build -race -gcflags=github.com/boltdb/bolt=-d=checkptr=0 -tags default_build,verif -o "$ROOT/bin/verifrun" ./cmd/verifrun
 echo "setup ok"
